@@ -1,5 +1,5 @@
 (* C19 - the configured drift rate is published exactly, or the daemon refuses to start. *)
-From Coq Require Import ZArith Lia Bool.
+From Coq Require Import ZArith Lia Bool List.
 From CB Require Import Mach Client Updater UpdaterProofs Cli.
 Open Scope Z_scope.
 
@@ -39,3 +39,15 @@ Proof. exact spec_drift. Qed.
 (* the wrapping conversion of the tree before the fix violates the property (finding F4, fixed) *)
 Theorem C19_wrapping_refuted : cli_ppb_wrapping (Some 4294968) = CliOk 704.
 Proof. vm_compute. reflexivity. Qed.
+
+(* a restarted daemon publishes the rate given to THIS instance in every one of its records,
+   whatever rate the instance before it was started with *)
+Theorem C19_every_instance_publishes_its_own_rate : forall pre d ms post cs,
+  lives (pre ++ (d, ms) :: post) = Some cs ->
+  exists a b c, cs = a ++ b ++ c /\ lives pre = Some a /\ length b = length ms /\
+                forall x, List.In x b -> c_drift x = d.
+Proof.
+  intros pre d ms post cs H. destruct (lives_life pre d ms post cs H) as (a & c & Ha & _ & -> & L).
+  exists a, (spec_run d nil ms), c. repeat split; auto.
+  intros x Hx. exact (spec_run_drift d ms nil x Hx).
+Qed.
